@@ -16,6 +16,7 @@ import (
 	"testing"
 
 	corev1 "k8s.io/api/core/v1"
+	metav1 "k8s.io/apimachinery/pkg/apis/meta/v1"
 	extv1 "k8s.io/apiextensions-apiserver/pkg/apis/apiextensions/v1"
 	"k8s.io/apimachinery/pkg/apis/meta/v1/unstructured"
 	"k8s.io/apimachinery/pkg/runtime"
@@ -236,9 +237,22 @@ func newWorld(xrRefs []string) *world {
 	w.store = xrh.NewStore()
 	for i, k := range xrRefs {
 		xr := xrh.XR(fmt.Sprintf("xr%d", i), "comp")
+		// "k1", "k1+k2", and with a trailing "!" an XR that is being deleted
+		// (held by a finalizer while its composed resources go away).
+		terminating := strings.HasSuffix(k, "!")
+		k = strings.TrimSuffix(k, "!")
 		if k != "" {
-			g := kinds[k]
-			xr.SetResourceReferences([]corev1.ObjectReference{{APIVersion: g.GroupVersion().String(), Kind: g.Kind, Name: "r"}})
+			var rs []corev1.ObjectReference
+			for _, one := range strings.Split(k, "+") {
+				g := kinds[one]
+				rs = append(rs, corev1.ObjectReference{APIVersion: g.GroupVersion().String(), Kind: g.Kind, Name: "r"})
+			}
+			xr.SetResourceReferences(rs)
+		}
+		if terminating {
+			now := metav1.Now()
+			xr.SetDeletionTimestamp(&now)
+			xr.SetFinalizers([]string{"composite.apiextensions.crossplane.io"})
 		}
 		w.store.Seed(xr)
 	}
@@ -692,13 +706,19 @@ func body(r *explore.Run, rep *report.R, sc scenario) {
 func collectorBody(r *explore.Run, rep *report.R) {
 	refs := []string{}
 	for i := 0; i < 2; i++ {
-		switch r.Free(4, fmt.Sprintf("xr%d", i)) {
+		switch r.Free(7, fmt.Sprintf("xr%d", i)) {
 		case 1:
 			refs = append(refs, "")
 		case 2:
 			refs = append(refs, "k1")
 		case 3:
 			refs = append(refs, "k2")
+		case 4:
+			refs = append(refs, "k1!")
+		case 5:
+			refs = append(refs, "k2!")
+		case 6:
+			refs = append(refs, "k1+k2")
 		}
 	}
 	var running []string
@@ -717,7 +737,11 @@ func collectorBody(r *explore.Run, rep *report.R) {
 	got := w.exec(op{"GetWatches", "c1", nil})
 	used := map[string]bool{}
 	for _, k := range refs {
-		used[k] = true
+		// An XR that is being deleted still references (and needs events
+		// from) its composed resources.
+		for _, one := range strings.Split(strings.TrimSuffix(k, "!"), "+") {
+			used[one] = true
+		}
 	}
 	var want []string
 	for _, k := range running {
